@@ -596,3 +596,122 @@ func TestVerif_CloseRace(t *testing.T) {
 		cl.Close()
 	}
 }
+
+
+// TestVerif_FileBig (C01): transfers with the default / realistic packet sizes and sizes around packet x max-concurrent-requests.
+func TestVerif_FileBig(t *testing.T) {
+	tr := newTracer(t)
+	sizes := []int{0, 1, 32767, 32768, 32769, 65537, 32768*64 + 1}
+	if vThorough() {
+		sizes = append(sizes, 32768*64-1, 32768*64, 3<<20+5, 32768*3, 100000)
+	}
+	type cfg struct {
+		backend string
+		opts    []ClientOption
+		name    string
+		maxTx   uint32
+	}
+	cfgs := []cfg{
+		{"rs", nil, "default", 0}, {"server", nil, "default", 0}, {"rs+alloc", nil, "default", 0}, {"server+alloc", nil, "default", 0},
+		{"server", []ClientOption{UseConcurrentWrites(true)}, "cwrites", 0}, {"rs+alloc", []ClientOption{UseConcurrentWrites(true), MaxConcurrentRequestsPerFile(3)}, "cwrites,conc3", 0},
+		{"server+alloc", []ClientOption{UseConcurrentReads(false)}, "seqreads", 0}, {"rs", []ClientOption{MaxPacketChecked(4096), UseFstat(true)}, "p4096,fstat", 0},
+		{"server", []ClientOption{MaxPacketUnchecked(60000)}, "p60000,maxtx65536", 65536}, {"rs+alloc", []ClientOption{MaxPacketUnchecked(65536)}, "p65536,maxtx65536", 65536},
+	}
+	for ci, c := range cfgs {
+		for si, size := range sizes {
+			if !vThorough() && (ci+si+int(vSeed()))%2 != 0 {
+				continue
+			}
+			content := posData(size, byte(ci+si))
+			tr.reset(kv{"kind": "filebig", "backend": c.backend, "opts": c.name, "size": size})
+			so := srvOpts{quiet: true, quietHandlers: true, hopt: "opvlrk", maxTx: c.maxTx}
+			switch c.backend {
+			case "rs":
+				so.kind = "rs"
+			case "rs+alloc":
+				so.kind, so.alloc = "rs", true
+			case "server":
+				so.kind = "server"
+			default:
+				so.kind, so.alloc = "server", true
+			}
+			root := ""
+			if so.kind == "server" {
+				root = prepRoot(t, "bigroot")
+				os.WriteFile(filepath.Join(root, "f"), content, 0o644)
+			}
+			sess := newSrvSession(t, tr, so)
+			sess.s2c.onWrite = nil
+			if sess.v != nil {
+				sess.v.addFile("/f", content)
+			}
+			go func() {
+				if sess.srv != nil {
+					sess.srv.Serve()
+				} else {
+					sess.rs.Serve()
+				}
+				sess.conn.Close()
+				close(sess.serveDone)
+			}()
+			cl, err := NewClientPipe(sess.s2c, pipeWriteCloser{p: sess.c2s}, c.opts...)
+			if err != nil {
+				t.Fatal(err)
+			}
+			p := "/f"
+			if root != "" {
+				p = filepath.Join(root, "f")
+			}
+			served := func(name string) []byte {
+				if sess.v != nil {
+					return sess.v.fileData("/" + name)
+				}
+				d, _ := os.ReadFile(filepath.Join(root, name))
+				return d
+			}
+			pos := func(f *File) int {
+				if o, e := f.Seek(0, io.SeekCurrent); e == nil {
+					return int(o)
+				}
+				return -1
+			}
+			// download: WriteTo
+			f, _ := cl.Open(p)
+			w := &captureW{}
+			n64, e := f.WriteTo(w)
+			tr.emit("FBig", kv{"api": "WriteTo", "size": size, "n": int(n64), "err": errClass(e), "equal": bytes.Equal(w.buf, content), "pos": pos(f), "wantpos": size})
+			// ReadAt of the whole file + 1 (EOF expected when the buffer is larger than the file)
+			buf := make([]byte, size)
+			n, e := f.ReadAt(buf, 0)
+			tr.emit("FBig", kv{"api": "ReadAt", "size": size, "n": n, "err": errClass(e), "equal": bytes.Equal(buf[:max(n, 0)], content), "pos": pos(f), "wantpos": size})
+			f.Close()
+			// upload: ReadFrom into a new file, then WriteAt into another
+			up := "/up"
+			if root != "" {
+				up = filepath.Join(root, "up")
+			}
+			g, e := cl.Create(up)
+			if e != nil {
+				t.Fatalf("create: %v", e)
+			}
+			n64, e = g.ReadFrom(bytes.NewReader(content))
+			gp := pos(g)
+			g.Close()
+			tr.emit("FBig", kv{"api": "ReadFrom", "size": size, "n": int(n64), "err": errClass(e), "equal": bytes.Equal(served("up"), content), "pos": gp, "wantpos": size})
+			up2 := "/up2"
+			if root != "" {
+				up2 = filepath.Join(root, "up2")
+			}
+			h, e := cl.Create(up2)
+			if e != nil {
+				t.Fatalf("create: %v", e)
+			}
+			n, e = h.WriteAt(content, 0)
+			hp := pos(h)
+			h.Close()
+			tr.emit("FBig", kv{"api": "WriteAt", "size": size, "n": n, "err": errClass(e), "equal": bytes.Equal(served("up2"), content), "pos": hp, "wantpos": 0})
+			cl.Close()
+			sess.waitServe(5 * time.Second)
+		}
+	}
+}
